@@ -21,7 +21,7 @@ func c06Write(wd, rel, content string) {
 	_ = os.WriteFile(p, []byte(content), 0o644)
 }
 
-const c06Svc = `{image: "img-${V:-none}-${W:-none}", build: ./ctx}`
+const c06Svc = `{image: "img-${V:-none}-${W:-none}", build: ./ctx, volumes: [{type: bind, source: ./data, target: /data}], env_file: [{path: ./svc.env, required: false}]}`
 
 func c06Materialize(wd string, f map[string]interface{}, n int) string {
 	b := func(k string) bool { return asBool(f[k]) }
@@ -58,6 +58,8 @@ func c06Materialize(wd string, f map[string]interface{}, n int) string {
 		main += "networks:\n  shared: {driver: overlay}\n"
 	case "main-same":
 		main += "networks:\n  shared: {driver: bridge}\n"
+	case "main-bare-different":
+		main += "networks:\n  bare:\n"
 	}
 	c06Write(wd, "compose.yaml", main)
 	c06Write(wd, "custom.env", "V=custom\n")
@@ -87,7 +89,8 @@ func c06Materialize(wd string, f map[string]interface{}, n int) string {
 	if b("cenv") {
 		secExtra, cfgExtra = "  secenv: {environment: SECVAR}\n", "  cfgenv: {environment: CFGVAR}\n"
 	}
-	i1 += "services:\n  s1: " + c06Svc + "\nnetworks:\n  shared: {driver: bridge}\nsecrets:\n  sec1: {file: ./sec.txt}\n" + secExtra + "configs:\n  cfg1: {file: ./cfg.txt}\n" + cfgExtra
+	bare1 := map[string]string{"bare-same": "  bare:\n", "bare-different": "  bare:\n", "main-bare-different": "  bare: {driver: overlay}\n"}[redef]
+	i1 += "services:\n  s1: " + c06Svc + "\n  s1x: {extends: {service: s1}}\nnetworks:\n  shared: {driver: bridge}\n" + bare1 + "secrets:\n  sec1: {file: ./sec.txt}\n" + secExtra + "configs:\n  cfg1: {file: ./cfg.txt}\n" + cfgExtra
 	c06Write(wd, "inc1/compose.yaml", i1)
 	if b("dotenv1") {
 		c06Write(wd, "inc1/.env", "V=inc1env\nW=w1\n")
@@ -103,6 +106,10 @@ func c06Materialize(wd string, f map[string]interface{}, n int) string {
 		i2 += "networks:\n  shared: {driver: bridge}\n"
 	case "different":
 		i2 += "networks:\n  shared: {driver: overlay}\n"
+	case "bare-same":
+		i2 += "networks:\n  bare:\n"
+	case "bare-different":
+		i2 += "networks:\n  bare: {driver: overlay}\n"
 	}
 	c06Write(wd, "inc2/compose.yaml", i2)
 	// ---- n1
@@ -138,11 +145,11 @@ func c06Pasted(res []interface{}) string {
 		var def string
 		switch kind {
 		case "services":
-			def = fmt.Sprintf(`{image: "img-%s-%s", build: "%sctx"}`, asStr(r["v"]), asStr(r["w"]), dir)
+			def = fmt.Sprintf(`{image: "img-%s-%s", build: "%sctx", volumes: [{type: bind, source: "%sdata", target: /data}], env_file: [{path: "%ssvc.env", required: false}]}`, asStr(r["v"]), asStr(r["w"]), dir, dir, dir)
 		case "volumes":
 			def = fmt.Sprintf(`{labels: {v: "%s"}}`, asStr(r["v"]))
 		case "networks":
-			def = map[int]string{1: "{driver: bridge}", 2: "{driver: overlay}"}[asInt(r["variant"])]
+			def = map[int]string{1: "{driver: bridge}", 2: "{driver: overlay}", 4: ""}[asInt(r["variant"])]
 		case "secrets":
 			def = fmt.Sprintf(`{file: "%ssec.txt"}`, dir)
 			if asInt(r["variant"]) == 3 {
